@@ -175,6 +175,9 @@ def run(ctx):
         fake = FakeS3()
         with fake.installed():
             prefix = rng.choice(['', 'p', 'p/q'])
+            # the zone the recording process runs in (windows are given in UTC, as the lookup documents)
+            fake.tz_offset = dt.timedelta(hours=rng.choice([0, 0, 9, -8, 5.5, 13, -11]))
+            ctx.count('process_zone_utc%+g' % (fake.tz_offset.total_seconds() / 3600.0))
             subsec = rng.random() < 0.5       # instants and bounds that do not fall on whole seconds
             inst = sorted(T0 + dt.timedelta(minutes=rng.randrange(0, 6 * 24 * 60), seconds=rng.randrange(60),
                                             microseconds=rng.choice([0, 1, 100000, 400000, 500000, 999999]) if subsec else 0) for _ in range(rng.randrange(1, 30)))
